@@ -149,6 +149,8 @@ CoreOp(doc, op, p, v) ==
           arr.t = "arr" => \A i \in 1..Len(arr.a) : \A j \in 1..Len(v.f) :
                              CorePair(Doc(<< <<"item", arr.a[i]>> >>), <<"item">>, v.f[j], FALSE)
   ELSE IF ~Traverses(doc, p) THEN TRUE
+  ELSE IF op = "$exists" THEN      \* over a fan-out path: in the domain unless a value at the end of the path is an empty array
+       LET ends == Expand(doc, p, FALSE) IN \A i \in 1..Len(ends) : ends[i] # EmptyArr
   ELSE /\ op \in TraverseOps
        /\ CASE op \in {"$in", "$nin"} -> v.t = "arr" /\ \A i \in 1..Len(v.a) : NonNullScalar(v.a[i])
             [] op \in {"$mod", "$type"} \/ op \in {"$bitsAllSet", "$bitsAllClear", "$bitsAnySet", "$bitsAnyClear"} -> TRUE
